@@ -20,11 +20,15 @@ def _violations_of(mod, job, res, ctx):
     return mod.judge(job, res, ctx)
 
 
-def minimise(pool: core.Pool, mod, job: dict, cls: str, ctx, log=core.log, max_rounds: int = 40) -> dict:
+def minimise(pool: core.Pool, mod, job: dict, cls: str, ctx, log=core.log, max_rounds: int = 40, wall_s: float = 150.0) -> dict:
     """ddmin over the op list, then per-op argument simplification, accepting a candidate
-    only if a violation of the same class persists. Every candidate runs in a fresh child."""
+    only if a violation of the same class persists. Every candidate runs in a fresh child.
+    Bounded by `wall_s`: when it runs out the best schedule found so far is reported."""
+    deadline = time.monotonic() + wall_s
 
     def fails_many(cands_ops):
+        if time.monotonic() > deadline:
+            return [False] * len(cands_ops)
         jobs = [dict(job, ops=o) for o in cands_ops]
         ress = pool.run(jobs)
         return [any(v["cls"] == cls for v in _violations_of(mod, j, r, ctx)) for j, r in zip(jobs, ress)]
@@ -35,7 +39,7 @@ def minimise(pool: core.Pool, mod, job: dict, cls: str, ctx, log=core.log, max_r
     if hasattr(mod, "simplify"):
         for _ in range(max_rounds):
             cands = mod.simplify(job)
-            if not cands:
+            if not cands or time.monotonic() > deadline:
                 break
             ress = pool.run(cands)
             hit = None
@@ -46,7 +50,8 @@ def minimise(pool: core.Pool, mod, job: dict, cls: str, ctx, log=core.log, max_r
             if hit is None:
                 break
             job = hit
-        ops2 = core.ddmin(list(job["ops"]), lambda cs: [any(v["cls"] == cls for v in _violations_of(mod, dict(job, ops=o), r, ctx)) for o, r in zip(cs, pool.run([dict(job, ops=o) for o in cs]))], min_len=min_len)
+        base = job
+        ops2 = core.ddmin(list(job["ops"]), lambda cs: [False] * len(cs) if time.monotonic() > deadline else [any(v["cls"] == cls for v in _violations_of(mod, dict(base, ops=o), r, ctx)) for o, r in zip(cs, pool.run([dict(base, ops=o) for o in cs]))], min_len=min_len)
         job = dict(job, ops=ops2)
     return job
 
@@ -137,9 +142,14 @@ def run_check(prop: str, tier: str, seed: int) -> int:
         n_viol = 0
         n_known = 0
         reported_keys = set()
-        for key, (job, v) in sorted(found.items()):
+        max_report = int(os.environ.get("VERIF_MAX_REPORT", 6))
+        if len(found) > max_report:
+            core.log(f"{len(found)} distinct violation classes seen; reporting the first {max_report} (sorted): the others are: {[k for k in sorted(found)][max_report:max_report + 20]}")
+        for n_rep, (key, (job, v)) in enumerate(sorted(found.items())):
+            if n_rep >= max_report:
+                break
             core.log(f"candidate violation {key}: minimising ({len(job['ops'])} ops) ...")
-            small = minimise(pool, mod, job, v["cls"], ctx)
+            small = minimise(pool, mod, job, v["cls"], ctx, wall_s=150.0 if n_rep < 3 else 30.0)
             # confirm in a fresh interpreter
             fres = core.run_fresh(prop, small) if not hasattr(mod, "run_fresh") else mod.run_fresh(small, ctx)
             fvs = [x for x in _violations_of(mod, small, fres, ctx) if x["cls"] == v["cls"]]
